@@ -160,6 +160,9 @@ class CompoundQuery(qcore.Query):
                     if q.overlaps(subqueries[j]):
                         qq = subqueries.pop(j)
                         q = q.merge(qq, intersect=self.intersect_merge)
+                        # The merged range may now overlap ranges that were
+                        # already passed over, so look at them again
+                        j = i + 1
                     else:
                         j += 1
                 q = subqueries[i] = q.normalize()
